@@ -35,7 +35,7 @@ package cluster_table_conf
 //@   ensures[an_accepted_table_has_a_version_and_a_config] result0 == nil ==> conf.Version != nil && conf.Config != nil
 
 // ---- C09 ----
-//@ spec addrInfoOf(b *BackendConf) string := abstract
+//@ spec addrKey(addr string, port int) string := abstract
 
 //@ func (*BackendConf).AddrInfo
 //@   props C09
@@ -43,4 +43,5 @@ package cluster_table_conf
 //@   requires b != nil && b.Addr != nil && b.Port != nil
 //@   frame Sprintf pure
 //@   modifies nothing
-//@   assumes[names_the_address_key] result0 == addrInfoOf(b)
+//@   assumes[names_the_address_key] result0 == addrKey(*b.Addr, *b.Port)
+//@   note fmt.Sprintf("%s:%d", addr, port) is named addrKey(addr, port): a function of its arguments
